@@ -671,7 +671,7 @@ fn finish_checks(
 
 fn spec_for(rng: &mut Prng, thorough: bool, i: usize) -> Spec {
     // header classes: the kernel cuts at multiples of unit = sndbuf - 64 (>= 2240)
-    let class = i % 10;
+    let class = i % 11;
     let mut sp = Spec {
         sndbuf: 0,
         filler: 0,
@@ -736,6 +736,16 @@ fn spec_for(rng: &mut Prng, thorough: bool, i: usize) -> Spec {
             sp.sndbuf = *rng.pick(&[0, 4000, 9000, 20000]);
             sp.patlen = rng.range(40000, 300000) as usize;
             sp.filler = if rng.chance(1, 4) { rng.range(1, 30000) as usize } else { 0 };
+        }
+        10 => {
+            // a BIG header (20-40 KiB: beyond any buffer-retention threshold) followed by a body; suspensions and short
+            // writes fall inside the header, at its end, and inside the body
+            sp.class = "big_header_then_body";
+            sp.hdr_target = Some(8 * rng.range(2560, 5120) as usize);
+            sp.sndbuf = *rng.pick(&[2304, 4000, 9000]);
+            sp.patlen = rng.range(20000, 90000) as usize;
+            sp.suspend_num = *rng.pick(&[2, 4, 4]);
+            sp.abandon_after = None;
         }
         8 => {
             sp.class = "default_sndbuf";
@@ -975,7 +985,7 @@ pub fn run(cfg: &Cfg) {
         write_all_case(&mut out, &mut rng, &files, *p);
     }
     out.finish(
-        "real DuplexConn to an in-process peer, client SO_SNDBUF 4608..212992 (kernel cuts at multiples of sndbuf/2-64), optional filler bytes queued before the message (EAGAIN before the first byte); classes: header-only/tiny, tiny behind filler, header 2.4-7 KiB with the cut inside it, header = 1 or 2 kernel units (cut exactly at the seam), bodies of a few / many units, default sndbuf, large (quick: <=1.2 MiB, thorough: 1-6 MiB); 0-3 real descriptors (memfds, fstat identity) before or after the byte array; per step randomly: write_once(Nonblock | 1 ms | the failing Duration(0)), write(Nonblock), into_progress+resume; the peer reads 0 / few / half / all pending bytes between calls; optional write_once after completion; optional abandonment after 0-4 calls; end by drop / force_finish / into_progress / force_finish_on_error; plus send_message cases (serial choice + header) and blocking send_message_write_all from a thread against a slow reader; distinct by request (header, body, observed event list); non-trivial = at least two calls or descriptors attached",
+        "real DuplexConn to an in-process peer, client SO_SNDBUF 4608..212992 (kernel cuts at multiples of sndbuf/2-64), optional filler bytes queued before the message (EAGAIN before the first byte); classes: header-only/tiny, tiny behind filler, header 2.4-7 KiB with the cut inside it, header = 1 or 2 kernel units (cut exactly at the seam), bodies of a few / many units, a 20-40 KiB header followed by a body with frequent suspensions, default sndbuf, large (quick: <=1.2 MiB, thorough: 1-6 MiB); 0-3 real descriptors (memfds, fstat identity) before or after the byte array; per step randomly: write_once(Nonblock | 1 ms | the failing Duration(0)), write(Nonblock), into_progress+resume; the peer reads 0 / few / half / all pending bytes between calls; optional write_once after completion; optional abandonment after 0-4 calls; end by drop / force_finish / into_progress / force_finish_on_error; plus send_message cases (serial choice + header) and blocking send_message_write_all from a thread against a slow reader; distinct by request (header, body, observed event list); non-trivial = at least two calls or descriptors attached",
         false,
     );
 }
